@@ -386,6 +386,7 @@ func TestC12(t *testing.T) {
 	ev.RapidChecks(ev.Pick(20000, 1000000))
 	ev.RapidSeed(12)
 	var rej int64
+	var early []Case
 	rapid.Check(t, func(rt *rapid.T) {
 		gw := func(l string) XY {
 			if rapid.IntRange(0, 3).Draw(rt, l+"kind") == 0 {
@@ -447,10 +448,22 @@ func TestC12(t *testing.T) {
 		if ev.SampleN() < 5 {
 			ev.Sample(c)
 		}
+		if len(early) < 400 {
+			early = append(early, c)
+		}
 		if k, w := check(c); k != "" {
 			ev.Fail(rt, "adapt", k, w, c)
 		}
 	})
+	// the first 400 generated cases once more, after everything else has been asked: what the library may have
+	// remembered in the meantime (memos, caches that filled up and evicted, adapted sizes) must not change them
+	for _, c := range early {
+		ev.Eval(1)
+		if k, w := check(c); k != "" {
+			ev.Violation("adapt", k, "asked again after many other calls: "+w, c)
+			break
+		}
+	}
 	ev.Set("rapid_rejected_invalid_white", rej)
 	if ev.Violations() > 0 {
 		t.Fail()
